@@ -50,6 +50,14 @@ type foreignExc struct {
 func (e *foreignExc) Error() string { return e.msg }
 func (e *foreignExc) TypeId() int32 { return e.id }
 
+// foreignFmt is a foreign exception that also formats itself (fmt.Formatter): what %v prints is not its Error() text,
+// and the text of an error is its Error() text.
+type foreignFmt struct{ foreignExc }
+
+func (e *foreignFmt) Format(f fmt.State, verb rune) {
+	fmt.Fprintf(f, "ForeignFmt(type=%d,%c)", e.id, verb)
+}
+
 type foreignEmbed struct {
 	*thrift.ApplicationException
 	extra int
@@ -174,6 +182,9 @@ func genTerm(cs *drv.Case, depth int) *enode {
 			return &enode{kind: ekForeign, err: &foreignEmbedP{thrift.NewProtocolException(id+2, "inner "+txt), id, txt}}
 		case 2:
 			return &enode{kind: ekForeign, err: &foreignEmbedAV{*thrift.NewApplicationException(id+3, "inner "+txt), id, txt}}
+		}
+		if cs.R.Intn(5) == 0 {
+			return &enode{kind: ekForeign, err: &foreignFmt{foreignExc{id, txt}}}
 		}
 		return &enode{kind: ekForeign, err: &foreignExc{id, txt}}
 	case ekForeignEmbed:
@@ -443,7 +454,7 @@ func monC18(c *drv.Ctx) {
 						m0 = me.Msg()
 					}
 					t1 := e.err.Error()
-					t2 := fmt.Sprintf("%v", e.err)
+					t2 := e.err.Error() // (the second time; not through fmt: a foreign error may format itself differently)
 					if t1 != t2 || (hasID && ie.TypeId() != id0) || (hasMsg && me.Msg() != m0) {
 						cs.Fail("error-text-not-pure", M{"kind": ekNames[e.kind]}, M{"term": e.describe(), "first": t1, "second": t2, "msg_before": m0, "message": "Error() changed the exception (type id, message or its own result)"})
 						return
